@@ -32,6 +32,13 @@ public:
     {
       carrier.Set(kBaggageHeader, header);
     }
+    else if (!carrier.Get(kBaggageHeader).empty())
+    {
+      // A reused carrier still holds the baggage header of another context. An empty baggage is
+      // normally not sent at all, but a carrier cannot erase a header: overwrite the stale value
+      // with the empty list, so that it does not travel with this context.
+      carrier.Set(kBaggageHeader, "");
+    }
   }
 
   context::Context Extract(const context::propagation::TextMapCarrier &carrier,
